@@ -190,13 +190,17 @@ def ode_program(rng, *, dmax=2, kmax=6):
     tdep = rng.random() < 0.5
     polys = gen_poly(rng, d, m, tdep=tdep, max_terms=3 if d <= 2 else 2)
     k = rng.randint(max(m + 2, 4), kmax)
+    if rng.random() < 0.2:  # a share of programs starts from half-integer values / times (still exact in binary floating point)
+        vals, times = [F(-3, 2), -1, F(-1, 2), 0, F(1, 2), 1, F(3, 2)], [-1, F(-1, 2), 0, F(1, 2), 1]
+    else:
+        vals, times = [-2, -1, 0, 1, 2], [-1, 0, 1, 2]
     return dict(
         d=d,
         m=m,
         polys=polys,
         tdep=is_tdep(polys),
-        inits=[[rng.randint(-2, 2) for _ in range(d)] for _ in range(m)],
-        t0=rng.choice([-1, 0, 1, 2]),
+        inits=[[rng.choice(vals) for _ in range(d)] for _ in range(m)],
+        t0=rng.choice(times),
         k=k,
         a=[rng.choice([-2, -1, 2, 3, 4]) for _ in range(d)],
         tree_variant=rng.randint(0, 1),
